@@ -23,6 +23,8 @@ PY = "/venv/bin/python"
 def run(cmd, cwd, timeout=3600):
     t = time.time()
     env = dict(os.environ)
+    for v in ("OMP_NUM_THREADS", "OPENBLAS_NUM_THREADS", "MKL_NUM_THREADS"):
+        env[v] = "1"  # many confirmations run side by side: no thread oversubscription
     env["PYTHONPATH"] = cwd  # demos must import the package of the worktree, not the editable install of /repo
     r = subprocess.run(cmd, cwd=cwd, capture_output=True, text=True, timeout=timeout, env=env)
     return r.returncode, (r.stdout + r.stderr)[-1500:], round(time.time() - t, 1)
